@@ -292,6 +292,7 @@ func (s *SerialDB) Remove(key []byte) error {
 	s.mutBatch.Lock()
 	_ = s.batch.Delete(key)
 	s.mutBatch.Unlock()
+	verifPoint("serial.rm.afterBatchDelete")
 
 	return s.updateBatchWithIncrement()
 }
